@@ -975,6 +975,12 @@ func (e *Exec) runBlock(st *State, fr *Frame, blk *ssa.BasicBlock, idx int, stop
 					}
 					val = t
 				}
+				if st.depth == 1 && e.inInit == 0 {
+					// the harness itself returns: finish the path now instead of keeping its state until
+					// every other path is done (memory stays proportional to the DFS depth, not to the path count)
+					e.finishPath(Outcome{kind: OReturn, st: st, val: val})
+					return res
+				}
 				res = append(res, Outcome{kind: OReturn, st: st, val: val})
 				return res
 			case *ssa.Panic:
